@@ -421,6 +421,43 @@ func init() {
 		// ---------------- encoding/json by contract (environment): see jsonMarshal/jsonUnmarshal
 		"encoding/json.Marshal":   jsonMarshal,
 		"encoding/json.Unmarshal": jsonUnmarshal,
+		// json.Decoder over a *bytes.Reader: Decode is Unmarshal of the reader's bytes; with UseNumber every number
+		// that lands in an interface-typed position comes back as json.Number instead of float64
+		"encoding/json.NewDecoder": func(m *Machine, c *frame, fn *ssa.Function, a []Value) Value {
+			iv, ok := a[0].(IfaceV)
+			if !ok || iv.T == nil {
+				m.unsupported("json.NewDecoder(nil)")
+			}
+			rp, ok := iv.V.(PtrV)
+			if !ok || rp.Obj == nil || !strings.HasSuffix(iv.T.String(), "bytes.Reader") {
+				m.unsupported("json.NewDecoder over " + iv.T.String())
+			}
+			rs := getPath(rp.Obj.Val, rp.Path).(StructV)
+			bs, ok := rs[0].(SliceV)
+			if !ok {
+				m.unsupported("json.NewDecoder: bytes.Reader layout")
+			}
+			return PtrV{Obj: m.newObj(StructV{bs, m.S.False()}, "json.Decoder", nil)}
+		},
+		"(*encoding/json.Decoder).UseNumber": func(m *Machine, c *frame, fn *ssa.Function, a []Value) Value {
+			p := a[0].(PtrV)
+			st := p.Obj.Val.(StructV)
+			p.Obj.Val = StructV{st[0], m.S.True()}
+			return nil
+		},
+		"(*encoding/json.Decoder).Decode": func(m *Machine, c *frame, fn *ssa.Function, a []Value) Value {
+			p := a[0].(PtrV)
+			st := p.Obj.Val.(StructV)
+			r := jsonUnmarshal(m, c, fn, []Value{st[0], a[1]})
+			if st[1].(*sym.Term).IsTrue() {
+				if tv, ok := a[1].(IfaceV); ok {
+					if tp, ok := tv.V.(PtrV); ok && tp.Obj != nil {
+						m.Store(tp, m.jsonUseNumber(m.Load(tp), 0))
+					}
+				}
+			}
+			return r
+		},
 
 		// ---------------- iter.Pull: eager model (run the push iterator to completion into a buffer)
 		"iter.Pull": func(m *Machine, c *frame, fn *ssa.Function, a []Value) Value {
@@ -823,6 +860,41 @@ func (m *Machine) havoc(t types.Type, name string, d int) Value {
 }
 
 var jsonErrT types.Type
+
+// jsonUseNumber rewrites a decoded value the way a Decoder with UseNumber would have produced it: numbers in
+// interface-typed positions are json.Number, not float64.
+func (m *Machine) jsonUseNumber(v Value, d int) Value {
+	if d > 6 {
+		return v
+	}
+	switch x := v.(type) {
+	case IfaceV:
+		if x.T == nil {
+			return x
+		}
+		if b, ok := under(x.T).(*types.Basic); ok && b.Info()&types.IsNumeric != 0 {
+			jp := m.E.Prog.ImportedPackage("encoding/json")
+			if jp == nil || jp.Type("Number") == nil {
+				m.unsupported("json.Number type not loaded")
+			}
+			return IfaceV{T: jp.Type("Number").Type(), V: m.MkStr("<number>")}
+		}
+		return IfaceV{T: x.T, V: m.jsonUseNumber(x.V, d+1)}
+	case StructV:
+		out := make(StructV, len(x))
+		for i := range x {
+			out[i] = m.jsonUseNumber(x[i], d+1)
+		}
+		return out
+	case ArrayV:
+		out := make(ArrayV, len(x))
+		for i := range x {
+			out[i] = m.jsonUseNumber(x[i], d+1)
+		}
+		return out
+	}
+	return v
+}
 
 func jsonUnmarshal(m *Machine, c *frame, fn *ssa.Function, a []Value) Value {
 	bs := a[0].(SliceV)
